@@ -882,7 +882,7 @@ func (f *Frame) zeroArray(st *State, ref Term, elem types.Type) {
 			}
 			return
 		}
-		hn, hs := env.cellHeap(t)
+		hn, hs := env.elemHeap(t)
 		heaps = append(heaps, struct {
 			name string
 			sort Sort
@@ -930,7 +930,7 @@ func (f *Frame) execConvert(st *State, x *ssa.Convert) {
 		// []byte(s): fresh array holding the bytes of s
 		ref := f.allocRef(st, types.NewArray(types.Typ[types.Uint8], 0))
 		sl := MkSlice(ref, IntLit(0), SLen(v.T), SLen(v.T))
-		hn, hs := env.cellHeap(types.Typ[types.Uint8])
+		hn, hs := env.elemHeap(types.Typ[types.Uint8])
 		old := st.Heap(vc, hn, hs)
 		nw := vc.freshConst(hn, hs)
 		vc.assumeIn(st, Term{fmt.Sprintf("(forall ((r Int)) (! (=> (not (= (base r) %s)) (= (select %s r) (select %s r))) :pattern ((select %s r))))", ref.S, nw.S, old.S, nw.S), SBool})
